@@ -233,6 +233,8 @@ Return(e) ==
             <<Cfg.light \/ ids = 1..n, "C03", "iteration-ids-not-gapless">>,
             <<~endedByLimit \/ n = Cfg.maxiter, "C03", "not-exactly-max-iterations">>,
             <<Cfg.light \/ ~complete \/ (e.a = succT /\ e.b = failT), "C01", "result-counts-differ-from-executed-iterations">>,
+            \* same number of iterations, but reported under the wrong outcome
+            <<Cfg.light \/ ~complete \/ e.a + e.b # succT + failT \/ e.b = failT, "C07", "iterations-reported-under-the-wrong-outcome">>,
             <<~Cfg.light \/ timeoutSeen \/ e.a + e.b = n, "C01", "result-counts-differ-from-invocations">>,
             <<timeoutSeen \/ liveIds = {}, "C05", "returned-with-iterations-in-flight">>,
             <<e.d = dropSum, "C01", "result-dropped-differs-from-reported-drops">>,
@@ -282,6 +284,7 @@ After(e) ==
           <<timeoutSeen \/ e.d = 0, "C05", "goroutine-of-the-run-remains">>,
           <<e.b2 = "", "C15", "stage-parameters-left-in-environment">>,
           <<mS = ret.s /\ mF = ret.f /\ mD = ret.d, "C16", "exported-iteration-samples-differ-from-result">>,
+          <<mS = ret.s /\ mF = ret.f /\ mD = ret.d, "C01", "exported-iteration-metrics-do-not-carry-the-result-counts">>,
           <<dropSum = ret.d, "C01", "iterations-reported-dropped-after-the-final-result">>,
           <<mSetup = 1, "C16", "setup-metric-not-exactly-one-sample">>,
           <<(setupSeen = 1) = (mSetupRes = "success"), "C16", "setup-metric-labelled-with-wrong-outcome">>,
